@@ -5,6 +5,7 @@ import (
 	"go/constant"
 	"go/token"
 	"go/types"
+	"strings"
 
 	"golang.org/x/tools/go/ssa"
 
@@ -1024,6 +1025,30 @@ func ruleC03BaseURIUsed(c *Ctx) {
 				okArg := c.mentionsField(call.Call.Args[0], "ResolveOptions.BaseURI", 4)
 				c.R.Check(okArg, rule, "root-base:parsed-from-BaseURI", c.pos(call), "the root's base is parsed from ResolveOptions.BaseURI", "the URI parsed for the root's base is not ResolveOptions.BaseURI")
 				parsed = parsed || okArg
+				// ... as it was given: no string function between the option and the parser, and no field of the parsed
+				// URL rewritten afterwards (a trailing slash of a directory-style base is significant)
+				verbatim := true
+				for _, v := range backSlice(call.Call.Args[0], 12) {
+					if tc, isCall := v.(*ssa.Call); isCall && tc != call {
+						if k := core.CalleeKey(&tc.Call); strings.HasPrefix(k, "strings.") || strings.HasPrefix(k, "path.") || strings.HasPrefix(k, "path/filepath.") {
+							verbatim = false
+						}
+					}
+				}
+				for _, f := range core.WithAnon(call.Parent()) {
+					core.EachInstr(f, func(j ssa.Instruction) {
+						if st, isSt := j.(*ssa.Store); isSt {
+							if fa, isFA := st.Addr.(*ssa.FieldAddr); isFA && isNamed(derefType(fa.X.Type()), "net/url", "URL") {
+								for _, src := range append(traceSources(fa.X), fa.X) {
+									if src == ssa.Value(x) {
+										verbatim = false
+									}
+								}
+							}
+						}
+					})
+				}
+				c.R.Check(verbatim, rule, "root-base:verbatim", c.pos(call), "the BaseURI is parsed as given and the parsed URI is not rewritten", "the BaseURI option is passed through a string or path function before it is parsed, or a field of the parsed URI is rewritten: a directory-style base such as \"https://example.com/schemas/\" loses its trailing slash, relative references resolve one directory up, and the Loader is asked for (or the reference silently binds to) another document")
 				return
 			}
 			if h := call.Call.StaticCallee(); h != nil && c.transparent(h) {
